@@ -8,6 +8,10 @@
 //!   s[i] succeeds  <=>  -n <= i < n ; then it is element (i mod n); else IndexOutOfBounds;
 //!   std.len(s) == n (chars, not bytes); the folding path agrees.
 use super::*;
+use crate::stdlib::len;
+use crate::{BinOperator, ExecError};
+use crate::variable::{Type, Variable};
+use crate::instruction::{BinOperation, Instruction};
 use crate::instruction::array::Array as ArrayIns;
 use crate::instruction::InstructionWithStr;
 use crate::verif_common::*;
